@@ -8,7 +8,9 @@
 //   case ::= (case LOCALASN (ops OP*))
 //   OP   ::= (ins C A NET ML ASN) | (rem C A NET ML ASN) | (drop C A)
 //          | (reset C A ((NET ML ASN)*))          -- the REAL TableManager::rpki_reset
-//          | (val NET PATH [POS]) | (iter F) | (show STATE NET PATH [POS])
+//          | (val NET PATH [POS]) | (iter F) | (show STATE NET PATH [POS]) | (showl STATE NET PATH [POS])
+//          showl = the same for a locally originated route (Source::local(), the speaker's global AS)
+//   case may also be (case LOCALASN GLOBALASN (ops OP*))
 //   NET  ::= (4 x<8 hex> LEN) | (6 x<32 hex> LEN)
 //   PATH ::= nopath | (path (T ASN*)*)            -- AS_PATH segments, T = segment type byte
 //   POS  ::= 0..3  number of other attributes placed before AS_PATH (default 1)
@@ -99,7 +101,7 @@ fn vrp_of(t: &[Term]) -> Option<(packet::IpNet, u8, u32)> {
 }
 
 enum Op {
-    Show(table::RpkiValidationState, packet::IpNet, Option<Vec<u8>>, usize),
+    Show(bool, table::RpkiValidationState, packet::IpNet, Option<Vec<u8>>, usize),
     Ins(u64, u64, packet::IpNet, u8, u32),
     Rem(u64, u64, packet::IpNet, u8, u32),
     Drop(u64, u64),
@@ -178,7 +180,7 @@ fn op_of(t: &Term) -> Option<Op> {
         }
         "val" if a.len() == 2 => Some(Op::Val(net_of(&a[0])?, path_of(&a[1])?, 1)),
         "val" if a.len() == 3 => Some(Op::Val(net_of(&a[0])?, path_of(&a[1])?, pos_of(&a[2])?)),
-        "show" if a.len() == 3 || a.len() == 4 => {
+        "show" | "showl" if a.len() == 3 || a.len() == 4 => {
             let st = match a[0].as_atom()? {
                 "valid" => table::RpkiValidationState::Valid,
                 "invalid" => table::RpkiValidationState::Invalid,
@@ -186,7 +188,7 @@ fn op_of(t: &Term) -> Option<Op> {
                 _ => return None,
             };
             let pos = if a.len() == 4 { pos_of(&a[3])? } else { 1 };
-            Some(Op::Show(st, net_of(&a[1])?, path_of(&a[2])?, pos))
+            Some(Op::Show(h == "showl", st, net_of(&a[1])?, path_of(&a[2])?, pos))
         }
         "iter" if a.len() == 1 => {
             let f = a[0].as_u64()?;
@@ -207,14 +209,23 @@ pub(super) fn run_case(line: &str) -> String {
         None => return "(bad-case)".into(),
     };
     let a = match t.tagged("case") {
-        Some(a) if a.len() == 2 => a,
+        Some(a) if a.len() == 2 || a.len() == 3 => a,
         _ => return "(bad-case)".into(),
     };
     let local_asn = match a[0].as_u64() {
         Some(v) if v <= u32::MAX as u64 => v as u32,
         _ => return "(bad-case)".into(),
     };
-    let ops_t = match a[1].tagged("ops") {
+    // the speaker's global AS (defaults to the session's local AS)
+    let global_asn = if a.len() == 3 {
+        match a[1].as_u64() {
+            Some(v) if v <= u32::MAX as u64 => v as u32,
+            _ => return "(bad-case)".into(),
+        }
+    } else {
+        local_asn
+    };
+    let ops_t = match a[a.len() - 1].tagged("ops") {
         Some(o) => o,
         None => return "(bad-case)".into(),
     };
@@ -235,6 +246,7 @@ pub(super) fn run_case(line: &str) -> String {
     ));
     let mut ctx = Ctx { arcs: HashMap::new() };
     let tables: TableHandle = Arc::new(TableManager::new(1));
+    tables.rpki_set_local_asn(global_asn);
     let mut obs = vec![Term::atom("obs")];
     for op in ops {
         match op {
@@ -258,7 +270,11 @@ pub(super) fn run_case(line: &str) -> String {
                     .collect();
                 tables.rpki_reset(s, roas);
             }
-            Op::Show(st, net, path, pos) => obs.push(show(&tables, &source, st, &net, attrs_of(path, pos))),
+            Op::Show(local, st, net, path, pos) => {
+                // `showl`: a locally originated route (the add_path handler uses Source::local())
+                let src = if local { table::Source::local() } else { source.clone() };
+                obs.push(show(&tables, &src, st, &net, attrs_of(path, pos)))
+            }
             Op::Val(net, path, pos) => {
                 let attrs = attrs_of(path, pos);
                 let tbl = tables.rpki.read().unwrap();
